@@ -142,4 +142,127 @@ RespIsValid(r) == Len(r.rdf) <= 65536
 RespEnc(r) == r.rdf \o <<r.sw1, r.sw2>>
 RespDec(s) == IF Len(s) < 2 THEN Fail
               ELSE [ok |-> TRUE, resp |-> [sw1 |-> s[Len(s) - 1], sw2 |-> s[Len(s)], rdf |-> Sub(s, 1, Len(s) - 2)]]
+
+\* ================================================================ bign ECParameters (bign.h, STB 34.101.45 D.11)
+\*   SEQ { SIZE(1) version, SEQ { OID bign-primefield, UINT p }, SEQ { OCT a, OCT b, BIT(64) seed },
+\*         OCT yG, UINT q, SIZE(1) cofactor OPTIONAL }     with |p| = |a| = |b| = |yG| = |q| in {32, 48, 64} octets.
+\* Structural specification: a SEQ of typed fields, every field inside its container, every container
+\* filled exactly, the whole input consumed.  Numbers are little-endian octet strings as in bign_params.
+OidBignPrimeField == <<49, 46, 50, 46, 49, 49, 50, 46, 48, 46, 50, 46, 48, 46, 51, 52, 46, 49, 48, 49, 46, 52, 53, 46, 52, 46, 49>>
+SEQT == <<48>>
+ParamsDec(s) ==
+  LET o == SeqDec(s, SEQT) IN
+  IF ~o.ok \/ o.n # Len(s) THEN Fail ELSE
+  LET v == SizeDec2(o.body, <<2>>, <<1>>) IN
+  IF ~v.ok THEN Fail ELSE
+  LET r1 == DropN(o.body, v.n)
+      f == SeqDec(r1, SEQT) IN
+  IF ~f.ok THEN Fail ELSE
+  LET fo == OidDec2(f.body, OidBignPrimeField) IN
+  IF ~fo.ok THEN Fail ELSE
+  LET fp == UintDec(DropN(f.body, fo.n), <<2>>) IN
+  IF ~fp.ok THEN Fail ELSE
+  IF Len(fp.val) \notin {32, 48, 64} \/ fo.n + fp.n # Len(f.body) THEN Fail ELSE
+  LET no == Len(fp.val)
+      r2 == DropN(r1, f.n)
+      c == SeqDec(r2, SEQT) IN
+  IF ~c.ok THEN Fail ELSE
+  LET ca == OctDec2(c.body, <<4>>, no) IN
+  IF ~ca.ok THEN Fail ELSE
+  LET cb == OctDec2(DropN(c.body, ca.n), <<4>>, no) IN
+  IF ~cb.ok THEN Fail ELSE
+  LET cs == BitDec2(DropN(c.body, ca.n + cb.n), <<3>>, 64) IN
+  IF ~cs.ok \/ ca.n + cb.n + cs.n # Len(c.body) THEN Fail ELSE
+  LET r3 == DropN(r2, c.n)
+      g == OctDec2(r3, <<4>>, no) IN
+  IF ~g.ok THEN Fail ELSE
+  LET q == UintDec2(DropN(r3, g.n), <<2>>, no) IN
+  IF ~q.ok THEN Fail ELSE
+  LET r4 == DropN(r3, g.n + q.n)
+      cof == SizeDec2(r4, <<2>>, <<1>>)
+      rest == IF cof.ok THEN Len(r4) - cof.n ELSE Len(r4) IN
+  IF rest # 0 THEN Fail ELSE
+  [ok |-> TRUE, n |-> o.n, cofactor |-> cof.ok,
+   params |-> [l |-> no * 4, p |-> fp.val, a |-> ca.val, b |-> cb.val, seed |-> cs.val, yG |-> g.val, q |-> q.val]]
+\* pre: |p| = |a| = |b| = |yG| = |q| = l / 4, the top octets of p and q are not zero
+ParamsEnc(P) ==
+  SeqEnc(SEQT, SizeEnc(<<2>>, <<1>>)
+               \o SeqEnc(SEQT, OidEnc(OidBignPrimeField) \o UintEnc(<<2>>, P.p))
+               \o SeqEnc(SEQT, OctEnc(<<4>>, P.a) \o OctEnc(<<4>>, P.b) \o BitEnc(<<3>>, P.seed, 64))
+               \o OctEnc(<<4>>, P.yG) \o UintEnc(<<2>>, P.q))
+
+\* ================================================================ CV certificates (btok.h, STB 34.101.79)
+\*   SEQ[APPLICATION 33] { SEQ[APPLICATION 78] body, OCT[APPLICATION 55](SIZE(34|48|72|96)) sig }
+\*   body = { SIZE[APP 41](0), PSTR[APP 2](8..12) authority, SEQ[APP 73] { OID bign-pubkey, BIT(384|512|768|1024) pubkey },
+\*            PSTR[APP 32](8..12) holder, SEQ[APP 76] { OID eIdAccess, OCT(5) } OPTIONAL,
+\*            OCT[APP 37](6) from, OCT[APP 36](6) until,
+\*            SEQ[APP 5] { SEQ[APP 19] { OID eSignAuthExt, SEQ[APP 76] { OID eSignAccess, OCT(2) } } } OPTIONAL }
+\* Structural acceptance only (names, dates and the public key are validated afterwards by btokCVCCheck).
+OidBignPubkey == <<49, 46, 50, 46, 49, 49, 50, 46, 48, 46, 50, 46, 48, 46, 51, 52, 46, 49, 48, 49, 46, 52, 53, 46, 50, 46, 49>>   \* 1.2.112.0.2.0.34.101.45.2.1
+OidEidAccess == <<49, 46, 50, 46, 49, 49, 50, 46, 48, 46, 50, 46, 48, 46, 51, 52, 46, 49, 48, 49, 46, 55, 57, 46, 54, 46, 49>>   \* 1.2.112.0.2.0.34.101.79.6.1
+OidEsignAccess == <<49, 46, 50, 46, 49, 49, 50, 46, 48, 46, 50, 46, 48, 46, 51, 52, 46, 49, 48, 49, 46, 55, 57, 46, 54, 46, 50>>   \* 1.2.112.0.2.0.34.101.79.6.2
+OidEsignAuthExt == <<49, 46, 50, 46, 49, 49, 50, 46, 48, 46, 50, 46, 48, 46, 51, 52, 46, 49, 48, 49, 46, 55, 57, 46, 56, 46, 49>>   \* 1.2.112.0.2.0.34.101.79.8.1
+\* a sequence of two fields filling the container: OID then OCT(k) -> the octets or Fail
+HatDec(body, oid, k) ==
+  LET a == OidDec2(body, oid) IN
+  IF ~a.ok THEN Fail ELSE
+  LET b == OctDec2(DropN(body, a.n), <<4>>, k) IN
+  IF ~b.ok \/ a.n + b.n # Len(body) THEN Fail ELSE [ok |-> TRUE, val |-> b.val]
+CvcBodyDec(s) ==       \* s begins with the body; returns consumed length and the fields
+  LET o == SeqDec(s, <<127, 78>>) IN
+  IF ~o.ok THEN Fail ELSE
+  LET v == SizeDec2(o.body, <<95, 41>>, <<>>) IN
+  IF ~v.ok THEN Fail ELSE
+  LET r1 == DropN(o.body, v.n)
+      au == PstrDec(r1, <<66>>) IN
+  IF ~au.ok THEN Fail ELSE
+  IF Len(au.val) < 8 \/ Len(au.val) > 12 THEN Fail ELSE
+  LET r2 == DropN(r1, au.n)
+      pk == SeqDec(r2, <<127, 73>>) IN
+  IF ~pk.ok THEN Fail ELSE
+  LET po == OidDec2(pk.body, OidBignPubkey) IN
+  IF ~po.ok THEN Fail ELSE
+  LET pb == BitDec(DropN(pk.body, po.n), <<3>>) IN
+  IF ~pb.ok THEN Fail ELSE
+  IF pb.bits \notin {384, 512, 768, 1024} \/ po.n + pb.n # Len(pk.body) THEN Fail ELSE
+  LET r3 == DropN(r2, pk.n)
+      ho == PstrDec(r3, <<95, 32>>) IN
+  IF ~ho.ok THEN Fail ELSE
+  IF Len(ho.val) < 8 \/ Len(ho.val) > 12 THEN Fail ELSE
+  LET r4 == DropN(r3, ho.n)
+      hasEid == StartsWith(r4, <<127, 76>>)
+      es == SeqDec(r4, <<127, 76>>)
+      eid == IF hasEid /\ es.ok THEN HatDec(es.body, OidEidAccess, 5) ELSE Fail IN
+  IF hasEid /\ ~eid.ok THEN Fail ELSE
+  LET r5 == IF hasEid THEN DropN(r4, es.n) ELSE r4
+      fr == OctDec2(r5, <<95, 37>>, 6) IN
+  IF ~fr.ok THEN Fail ELSE
+  LET un == OctDec2(DropN(r5, fr.n), <<95, 36>>, 6) IN
+  IF ~un.ok THEN Fail ELSE
+  LET r6 == DropN(r5, fr.n + un.n)
+      hasExt == StartsWith(r6, <<101>>)
+      x1 == SeqDec(r6, <<101>>)
+      x2 == IF hasExt /\ x1.ok THEN SeqDec(x1.body, <<115>>) ELSE Fail
+      x3 == IF x2.ok /\ x2.n = Len(x1.body) THEN OidDec2(x2.body, OidEsignAuthExt) ELSE Fail
+      x4 == IF x3.ok THEN SeqDec(DropN(x2.body, x3.n), <<127, 76>>) ELSE Fail
+      esg == IF x4.ok /\ x3.n + x4.n = Len(x2.body) THEN HatDec(x4.body, OidEsignAccess, 2) ELSE Fail IN
+  IF hasExt /\ ~esg.ok THEN Fail ELSE
+  LET used == Len(o.body) - Len(r6) + (IF hasExt THEN x1.n ELSE 0) IN
+  IF used # Len(o.body) THEN Fail ELSE
+  [ok |-> TRUE, n |-> o.n,
+   cvc |-> [authority |-> au.val, holder |-> ho.val, pubkey |-> pb.val, from |-> fr.val, until |-> un.val,
+            hat_eid |-> IF hasEid THEN eid.val ELSE Zeros(5), hat_esign |-> IF hasExt THEN esg.val ELSE Zeros(2)]]
+SigLens == <<34, 48, 72, 96>>
+CvcDec(s) ==
+  LET o == SeqDec(s, <<127, 33>>) IN
+  IF ~o.ok \/ o.n # Len(s) THEN Fail ELSE
+  LET b == CvcBodyDec(o.body) IN
+  IF ~b.ok THEN Fail ELSE
+  LET rest == DropN(o.body, b.n)
+      k == SelectInSeq(SigLens, LAMBDA l : OctDec2(rest, <<95, 55>>, l).ok) IN
+  IF k = 0 THEN Fail ELSE
+  LET sg == OctDec2(rest, <<95, 55>>, SigLens[k]) IN
+  IF sg.n # Len(rest) THEN Fail ELSE [ok |-> TRUE, n |-> o.n, cvc |-> b.cvc, sig |-> sg.val]
+\* btokCVCLen: length of the certificate at the start of a chain
+CvcLen(s) == Dec2(s, <<127, 33>>)
 =============================================================================
